@@ -74,8 +74,20 @@ def parse_filter_dict(filter_dict: Dict[str, Any]) -> List[FilterExpression]:
                 expressions.append(FilterExpression(column, FilterOp.GE, lo))
                 expressions.append(FilterExpression(column, FilterOp.LE, hi))
             elif op_str_lower in ("is_null", "isnull"):
+                if value is not True:
+                    # The flag used to be ignored: ("is_null", False) selected
+                    # the NULL rows - the opposite of what it says.
+                    raise ValueError(
+                        f"Filter on '{column}': ('{op_str}', {value!r}) is not supported, "
+                        f"the flag must be True. Use ('is_not_null', True) for the complement."
+                    )
                 expressions.append(FilterExpression(column, FilterOp.IS_NULL, None))
             elif op_str_lower in ("is_not_null", "notnull", "isnotnull"):
+                if value is not True:
+                    raise ValueError(
+                        f"Filter on '{column}': ('{op_str}', {value!r}) is not supported, "
+                        f"the flag must be True. Use ('is_null', True) for the complement."
+                    )
                 expressions.append(FilterExpression(column, FilterOp.IS_NOT_NULL, None))
             else:
                 op = _parse_op(op_str)
